@@ -77,11 +77,11 @@ type c16Spec struct {
 }
 
 type c16Obs struct {
-	Returned  int64   `json:"returned_at_ns"`
-	Prefix    []int   `json:"result_ids"`
-	Untouched bool    `json:"suffix_untouched"`
+	Returned  int64    `json:"returned_at_ns"`
+	Prefix    []int    `json:"result_ids"`
+	Untouched bool     `json:"suffix_untouched"`
 	Problems  []string `json:"problems"`
-	Deadlock  string  `json:"bubble_panic,omitempty"`
+	Deadlock  string   `json:"bubble_panic,omitempty"`
 }
 
 var errC16Sentinel = errors.New("sentinel")
@@ -201,6 +201,11 @@ func c16Guard(r *ev.Run, id string, spec c16Spec) (c16Obs, bool) {
 
 func c16Check(r *ev.Run, id string, spec c16Spec) {
 	obs, _ := c16Guard(r, id, spec)
+	c16Judge(r, id, spec, obs, "")
+	r.Distinct(fmt.Sprint(spec))
+}
+
+func c16Judge(r *ev.Run, id string, spec c16Spec, obs c16Obs, clsPrefix string) {
 	r.Eval(1)
 	n := len(spec.At)
 	must, maybe := map[int]bool{}, map[int]bool{}
@@ -266,7 +271,7 @@ func c16Check(r *ev.Run, id string, spec c16Spec) {
 		r.Violation("MeasureClockOffsets|state:"+key, id, w)
 	}
 	// classes observed
-	cls := fmt.Sprintf("n=%s", map[bool]string{true: "0", false: "1+"}[n == 0])
+	cls := clsPrefix + fmt.Sprintf("n=%s", map[bool]string{true: "0", false: "1+"}[n == 0])
 	if spec.DL == 0 {
 		cls += ",no-deadline"
 	} else if obs.Returned == spec.DL {
@@ -297,7 +302,140 @@ func c16Check(r *ev.Run, id string, spec c16Spec) {
 		r.Class(fmt.Sprintf("tie-at-deadline:%d-of-%d-counted", min(in, 1), 1))
 	}
 	sort.Ints(obs.Prefix)
-	r.Distinct(fmt.Sprint(spec))
+}
+
+// c16Chain runs several rounds back to back on ONE collector inside one bubble: round j+1
+// starts the moment round j has returned, i.e. while clocks of round j that ignore the
+// cancellation are still running. Every round is judged like a single round; a result of an
+// earlier round showing up in a later round's slice is a result that does not belong there.
+func c16Chain(specs []c16Spec) (res []c16Obs, bubble string) {
+	var omu sync.Mutex
+	var out []c16Obs
+	defer func() {
+		p := recover()
+		if omu.TryLock() {
+			res = out
+			omu.Unlock()
+		}
+		if p != nil {
+			bubble = fmt.Sprint(p)
+		}
+	}()
+	synctest.Run(func() {
+		omu.Lock()
+		defer omu.Unlock()
+		var mu sync.Mutex
+		calls, rets, want := 0, 0, 0
+		var rc client.ReferenceClockClient
+		var tail time.Duration
+		var cancels []context.CancelFunc
+		type keep struct{ ms, snap []measurements.Measurement }
+		var kept []keep
+		for j, spec := range specs {
+			n := len(spec.At)
+			base := 100 * (j + 1)
+			clks := make([]client.ReferenceClock, n)
+			for i := 0; i < n; i++ {
+				c := &c16Clock{id: base + i, at: time.Duration(spec.At[i]), extra: time.Duration(spec.Extra[i]), fail: spec.Fail[i],
+					ignore: spec.Ignore[i], mu: &mu, calls: &calls, ret: &rets}
+				clks[i] = c
+				tail = max(tail, c.at, time.Duration(spec.DL)+c.extra)
+			}
+			want += n
+			ms := make([]measurements.Measurement, n)
+			for i := range ms {
+				ms[i] = measurements.Measurement{Offset: time.Duration(-777 - i), Error: errC16Sentinel}
+			}
+			ctx, cancel := context.WithDeadline(context.Background(), time.Now().Add(time.Duration(spec.DL)))
+			cancels = append(cancels, cancel)
+			start := time.Now()
+			var o c16Obs
+			func() {
+				defer func() {
+					if p := recover(); p != nil {
+						o.Problems = append(o.Problems, "round refused or panicked: "+fmt.Sprint(p))
+					}
+				}()
+				rc.MeasureClockOffsets(ctx, clks, ms)
+			}()
+			o.Returned = int64(time.Since(start))
+			k := 0
+			for k < n && !(ms[k].Error == errC16Sentinel && ms[k].Offset == time.Duration(-777-k)) {
+				k++
+			}
+			o.Untouched = true
+			for i := k; i < n; i++ {
+				if !(ms[i].Error == errC16Sentinel && ms[i].Offset == time.Duration(-777-i)) {
+					o.Untouched = false
+				}
+			}
+			for i := 0; i < k; i++ {
+				id := int(ms[i].Offset) - 1000
+				if ms[i].Error != nil {
+					o.Problems = append(o.Problems, fmt.Sprintf("slot %d carries an error", i))
+				}
+				if !ms[i].Timestamp.Equal(time.Unix(1700000000+int64(id), 0)) {
+					o.Problems = append(o.Problems, fmt.Sprintf("slot %d timestamp does not belong to clock %d", i, id))
+				}
+				if id >= base && id < base+n {
+					id -= base
+				} else {
+					id += 100000 // a value of another round (or of no clock at all)
+				}
+				o.Prefix = append(o.Prefix, id)
+			}
+			out = append(out, o)
+			kept = append(kept, keep{ms, append([]measurements.Measurement{}, ms...)})
+		}
+		for _, c := range cancels {
+			c()
+		}
+		time.Sleep(tail + time.Second)
+		synctest.Wait()
+		mu.Lock()
+		if calls != want || rets != want {
+			out[len(out)-1].Problems = append(out[len(out)-1].Problems, fmt.Sprintf("clock calls=%d returns=%d of %d", calls, rets, want))
+		}
+		mu.Unlock()
+		for j, kp := range kept {
+			for i := range kp.ms {
+				if kp.ms[i] != kp.snap[i] {
+					out[j].Problems = append(out[j].Problems, fmt.Sprintf("slot %d modified after the round returned", i))
+				}
+			}
+		}
+	})
+	return res, bubble
+}
+
+func c16ChainCheck(r *ev.Run, id string, specs []c16Spec) {
+	type ret struct {
+		obs    []c16Obs
+		bubble string
+	}
+	ch := make(chan ret, 1)
+	go func() { o, b := c16Chain(specs); ch <- ret{o, b} }()
+	var got ret
+	select {
+	case got = <-ch:
+	case <-time.After(60 * time.Second):
+		r.Violation("MeasureClockOffsets|hang|round did not end (60 s wall clock, virtual time stuck)", id, map[string]any{"rounds": specs})
+		r.Eval(1)
+		return
+	}
+	if got.bubble != "" {
+		kind := "panic"
+		if strings.Contains(got.bubble, "deadlock") {
+			kind = "state:goroutine left blocked after all clocks returned"
+		}
+		r.Eval(1)
+		r.Violation("MeasureClockOffsets|"+kind, id, map[string]any{"rounds": specs, "bubble_panic": got.bubble, "observed": got.obs})
+		return
+	}
+	for j, o := range got.obs {
+		c16Judge(r, fmt.Sprintf("%s", id), specs[j], o, fmt.Sprintf("back-to-back round %d:", min(j+1, 3)))
+	}
+	r.Distinct(fmt.Sprint(specs))
 }
 
 // c16Reentry: a second collection on the same collector while one is in progress must be refused.
@@ -443,6 +581,46 @@ func init() {
 			add(fmt.Sprintf("rnd%d", k), s)
 		}
 		parallel(len(specs), func(w, i int) { c16Check(r, ids[i], specs[i]) })
+		// back-to-back rounds on one collector: later rounds start while late clocks of earlier ones still run
+		var chains [][]c16Spec
+		var chainIDs []string
+		crng := r.Rng("c16chain")
+		for k := 0; k < r.Pick(600, 60000); k++ {
+			nr := 2 + crng.IntN(3)
+			var ch []c16Spec
+			for j := 0; j < nr; j++ {
+				n := crng.IntN(6)
+				if k%7 == 0 {
+					n = 1 + crng.IntN(2)
+				}
+				s := c16Spec{DL: D, At: make([]int64, n), Extra: make([]int64, n), Fail: make([]bool, n), Ignore: make([]bool, n)}
+				for i := 0; i < n; i++ {
+					switch crng.IntN(5) {
+					case 0:
+						s.At[i] = times[crng.IntN(len(times))]
+					case 1:
+						s.At[i] = crng.Int64N(D)
+					case 2:
+						s.At[i] = D + 1 + crng.Int64N(3*D) // still running during the following round(s)
+					case 3:
+						s.At[i] = -1
+						s.Extra[i] = crng.Int64N(3 * D)
+					default:
+						s.At[i] = crng.Int64N(2 * D)
+					}
+					s.Fail[i] = crng.IntN(4) == 0
+					s.Ignore[i] = s.At[i] > D || crng.IntN(4) == 0
+				}
+				ch = append(ch, s)
+			}
+			id := fmt.Sprintf("chain%d", k)
+			if r.Only() != "" && r.Only() != id {
+				continue
+			}
+			chains = append(chains, ch)
+			chainIDs = append(chainIDs, id)
+		}
+		parallel(len(chains), func(w, i int) { c16ChainCheck(r, chainIDs[i], chains[i]) })
 		if r.Only() == "" {
 			for k, p := range [][2]time.Duration{{10, 5}, {1000000, 1}, {1000000, 999999}, {2, 1}, {3600 * time.Second, time.Second}} {
 				c16Reentry(r, fmt.Sprintf("re%d", k), p[0], p[1])
@@ -461,7 +639,7 @@ func init() {
 		r.Finish("fault scripts for ReferenceClockClient.MeasureClockOffsets inside synctest bubbles: per clock a completion time relative to the 1 ms virtual deadline (0, 1 ns, D-1, D, D+1, "+
 			"blocked until cancelled, random; clocks that honour or ignore cancellation; slow return after cancellation) and an outcome (value with unique id, or error); exhaustive over all patterns for small n, "+
 			"seeded random for n <= 16 incl. rounds without deadline; oracle on the virtual clock: return <= deadline, prefix = exactly the in-time successes each once, suffix untouched, slice not written after return, "+
-			"bubble ends (no goroutine left blocked) once all clocks returned, second round during a round refused, after it accepted. distinct_nontrivial = distinct fault scripts (hashed)", 8)
+			"bubble ends (no goroutine left blocked) once all clocks returned, second round during a round refused, after it accepted; chains of 2-4 rounds back to back on one collector (the next round starts while clocks of the previous one that ignore cancellation still run), each round judged alone. distinct_nontrivial = distinct fault scripts (hashed)", 8)
 	})
 }
 
